@@ -6,6 +6,8 @@ K3 == 1..3
 NoKeys == {}
 Eth3 == {3}
 MutAll == {"content", "sig", "payer"}
+PreAll == {"query", "reverify"}
+PreNone == {}
 MutNone == {}
 
 CK(k) == [v |-> k, enc |-> "c", push |-> "direct"]
@@ -91,7 +93,7 @@ SpecC17 == Init /\ [][NextC17]_vars
 
 -----------------------------------------------------------------------------
 \* Row export.  Every behaviour is  Submit ; VerifyTransaction ; [ExecFresh | Mutate* ; VerifyTransaction]  and
-\* (tx, phase, mutated) determine the whole state (verdict/signed/raw/facts are functions of them, see the actions), so
+\* (tx, phase, mutated, pre) determine the whole state (verdict/signed/raw/facts are functions of them, see the actions), so
 \* each printed row is self-contained: the transaction the action acts on, the action, and the model's outcome.
 \* Rows are flat tuples (compact JSON arrays); address sets are exported by equality only.
 SetT(s) == <<s.form, [i \in DOMAIN s.keys |-> <<s.keys[i].v, s.keys[i].enc, s.keys[i].push>>], s.m, s.menc, s.n, s.nenc,
@@ -99,10 +101,10 @@ SetT(s) == <<s.form, [i \in DOMAIN s.keys |-> <<s.keys[i].v, s.keys[i].enc, s.ke
 TxT(t) == <<t.payer.kind, t.payer.i, [i \in DOMAIN t.sets |-> SetT(t.sets[i])]>>
 Row ==
     IF act'.name = "VerifyTransaction"
-    THEN <<"V", TxT(tx), mutated, verdict', facts'.txok, facts'.dup, facts'.exact>>
+    THEN <<"V", TxT(tx), mutated, verdict', facts'.txok, facts'.dup, facts'.exact, pre>>
     ELSE IF act'.name = "ExecFresh"
     THEN <<"X", TxT(tx), raw' = signed', Cardinality(raw'), Cardinality(signed'), facts.canon>>
     ELSE <<"M", TxT(tx), act'.name, IF act'.name = "MutateSig" THEN act'.i ELSE 0,
            IF act'.name = "MutateSig" THEN act'.j ELSE 0, TxT(tx')>>
-Edge == (act'.name # "Submit") => PrintT(<<"ROW", ToJson(Row)>>)
+Edge == (act'.name \notin {"Submit", "GetSignatureAddressesEarly", "VerifyAgain"}) => PrintT(<<"ROW", ToJson(Row)>>)
 =============================================================================
